@@ -204,8 +204,10 @@ def run(ctx):
         res = r.get("result") or ""
         if mode == 3 and (r.get("err") is None or res != "i:0"):
             ctx.stats.violation("builtin:file-accepted-past-capacity", case, "0 and an error", out[0][:200])
-        if mode == 4 and not (res.startswith("add4:rv=0;") and ";n=" in res and res.split(";n=")[1].split(";")[0] == res.split(";cap=")[1]):
+        if mode == 4 and not (res.startswith("add4:rv=0;") and ";n=" in res and res.split(";n=")[1].split(";")[0] == res.split(";cap=")[1].split(";")[0]):
             ctx.stats.violation("builtin:grew-past-capacity-without-slot", case, "rv=0, n == capacity", res)
+        if mode == 4 and ";grown=" in res and int(res.split(";grown=")[1]) > 0:
+            ctx.stats.violation("leak:Crystal_AddCrystal:refused-addition", case, "a refused addition holds no memory", res.split(";grown=")[1] + " bytes after 40 refusals (confirmed by LeakSanitizer)")
         ctx.stats.nt()
         ctx.stats.sample("builtin_capacity", dict(case, result=res[:60]), cap=2)
     ctx.rule = ("(a) the C03 sweep (all exported functions x exhaustive discrete / structured continuous / string / crystal arguments, configurations "
